@@ -319,6 +319,34 @@ def run(ctx):
         ctx.inst("C14.R4", construct + "/flag-set", ("val", 0) in ks and all(o.kind != "undecided" for o in outs),
                  "with the flag set, is_expired() can be false (depends on the timestamps)", "outcomes %s" % ks, f.loc(f.raw["span"]))
 
+    # ---------------- R6 cached pause state is a faithful copy (the gate reads the cache, not the fee state)
+    PSC = "marginfi_type_crate::types::panic_state_cache::PanicStateCache"
+    PS = "marginfi_type_crate::types::panic_state_cache::PanicState"
+    wr = [k for k, kinds in writers_of(prog, PSC, "pause_start_timestamp") if "assign" in kinds]
+    if not wr:
+        ctx.missing("C14.R6", "writer of PanicStateCache.pause_start_timestamp")
+    for k in wr:
+        f = prog.fns[k]
+        for fld in ("pause_flags", "pause_start_timestamp"):
+            for bi, s, pv in field_stores(ctx, f, PSC, fld):
+                others = [("field", PS, o) for o in ("pause_flags", "pause_start_timestamp", "last_daily_reset_timestamp", "daily_pause_count", "consecutive_pause_count", "last_pause_timestamp") if o != fld]
+                wiring(ctx, "C14.R6", "cache-copy/%s@%s" % (fld, f.name), pv, must=[("field", PS, fld)], must_not=others, loc=f.bloc(bi), what="PanicStateCache." + fld)
+    # the propagate instruction hands the fee state's panic_state to that copy
+    try:
+        ph = ctx.handler("C14.R6", "propagate_fee_state")
+        hit = False
+        for c0 in ph.calls():
+            if c0.key in wr and len(c0.args) >= 2:
+                pv = ctx.slicer.operand(ph, c0.args[1], at=c0.block)
+                hit = True
+                wiring(ctx, "C14.R6", "propagate/source", pv, must=[("field", "FeeState", "panic_state")], loc=c0.loc, what="panic state handed to the group cache")
+                pv0 = ctx.slicer.operand(ph, c0.args[0], at=c0.block)
+                wiring(ctx, "C14.R6", "propagate/dest", pv0, must=[("field", GROUP, "panic_state_cache")], loc=c0.loc, what="cache being updated")
+        if not hit:
+            ctx.inst("C14.R6", "propagate/source", False, "propagate_fee_state calls the cache copy", "no call", ph.loc(ph.raw["span"]))
+    except Exception:
+        pass
+
     # ---------------- R5 reduce-only valuation only on Initial
     try:
         cwav = ctx.fn("C14.R5", {"name": "calc_weighted_asset_value", "crate": "marginfi"})
